@@ -93,17 +93,22 @@ def make(shape: Dict[str, Any]) -> Any:
         zc = env.make_zc(loop)
         model = RefCache()
         rec = PurgeRecorder()
+        rec2 = PurgeRecorder()  # a second listener: every listener is told about every purged record
         for i, ev in enumerate(events):
             if i > 0:
                 loop.now_ms = loop.now_ms + ctx.int(f'gap{i}', 0, GAP_MAX)
             now = loop.now_ms
             if ev == 'PURGE':
                 zc.record_manager.async_add_listener(rec, None)
+                zc.record_manager.async_add_listener(rec2, None)
                 expected_gone = sorted(model.purge(now))
                 zc.engine._async_cache_cleanup()
                 zc.record_manager.async_remove_listener(rec)
+                zc.record_manager.async_remove_listener(rec2)
                 reported = [p for b in rec.batches for p in b]
-                rec.batches = []
+                reported2 = [p for b in rec2.batches for p in b]
+                rec.batches, rec2.batches = [], []
+                ctx.check(sorted(ident_of(n) for n, _ in reported2) == sorted(ident_of(n) for n, _ in reported), f'purge at event {i}: two listeners were told about different records')
                 got = sorted(ident_of(n) for n, _ in reported)
                 ctx.check(got == expected_gone, f'purge at event {i}: reported {[g[:3] for g in got]} but exactly {[g[:3] for g in expected_gone]} have fully elapsed (each once)')
                 for n, o in reported:
@@ -132,6 +137,7 @@ QUICK = [
     ['P1 P1', 'P1', 'PURGE'],
     ['S1 S1', 'S1', 'PURGE'],
     ['P1', 'P1+', 'PURGE'],
+    ['N1+', 'N1+', 'PURGE'],
     ['A1+', 'A1u+', 'PURGE'],
     ['S1+ T1+', 'S1+', 'PURGE'],
     ['P1 P2', 'PURGE', 'P1'],
